@@ -83,3 +83,14 @@ package transport
 //@ func (*connHandshaker).Wait
 //@   ensures !at("if#3", h.closed) ==> len(h.doneq) == len(at("if#3", h.doneq)) - 1 && forall(k, 0, len(h.doneq), h.doneq[k] == at("if#3", h.doneq)[k+1])
 //@   ensures !at("if#3", h.closed) ==> result0 == at("if#3", h.doneq)[0].c && result1 == at("if#3", h.doneq)[0].e
+
+// ---- round 5b ----
+//@ func (*conn).GetOption
+//@   ensures n == mangos.OptionMaxRecvSize ==> isnil(result1) && result0 == iface(p.maxrx)
+//@   ensures n != mangos.OptionMaxRecvSize && !has(p.options, n) ==> isnil(result0) && result1 == mangos.ErrBadProperty
+//@   ensures n != mangos.OptionMaxRecvSize && has(p.options, n) ==> isnil(result1) && result0 == p.options[n]
+//@
+//@ func (*connHandshaker).Start
+//@   before call:Unlock#1 assert has(h.workq, conn)
+//@   before go:worker#1 assert !held(h.Mutex) && arg0 == conn
+//@   ensures spawned("worker")
